@@ -7,23 +7,27 @@ from ..report import Report
 from .breaker_flow import ENTRY_POINTS, flow, FlowResult
 
 
+def _origin(interp, widx, depth: int = 0) -> tuple[str, str]:
+    steps = interp.witness_path(widx)
+    origin = ("", "")
+    prev = None
+    for s in steps:
+        if s[0] == "callee-exit" and s[2] == "raise" and s[4] is not None and depth < 12:
+            inner = _origin(interp, s[4], depth + 1)
+            if inner != ("", ""):
+                origin = inner
+        elif s[0] == "raise" and len(s) >= 5 and not s[4].startswith("reraise"):
+            # a raise recorded at a call node right after that callee's exceptional exit is
+            # only the propagation of the callee's exception
+            if not (prev is not None and prev[0] == "callee-exit" and prev[2] == "raise"):
+                origin = (s[3], s[4])
+        prev = s
+    return origin
+
+
 def origin_of(F: FlowResult, ex) -> tuple[str, str]:
     """(function, event label) where the escaping exception was first raised"""
-    steps = F.interp.witness_path(ex.witness)
-    origin = ("", "")
-    for s in steps:
-        if s[0] == "raise" and len(s) >= 5 and not s[4].startswith("reraise"):
-            origin = (s[3], s[4])
-        if s[0] == "callee-exit" and s[2] == "raise" and s[4] is not None:
-            inner = F.interp.witness_path(s[4])
-            for t in inner:
-                if t[0] == "raise" and len(t) >= 5 and not t[4].startswith("reraise"):
-                    origin = (t[3], t[4])
-                if t[0] == "callee-exit" and t[2] == "raise" and t[4] is not None:
-                    for u in F.interp.witness_path(t[4]):
-                        if u[0] == "raise" and len(u) >= 5 and not u[4].startswith("reraise"):
-                            origin = (u[3], u[4])
-    return origin
+    return _origin(F.interp, ex.witness)
 
 
 def last_where(F: FlowResult, ex) -> str:
